@@ -59,11 +59,27 @@ def is_verdict_type(facts, ty):
     return bool(a is not None and a['kind'] == 'enum' and a['def'].startswith('datacake_crdt') and a['variants'] and all(not v['fields'] for v in a['variants']))
 
 
-def self_fields_accessed(facts, method_body):
-    """names of the fields of *self accessed in the method's own body group"""
+def self_fields_accessed(facts, method_body, _depth=0, _seen=None):
+    """names of the fields of *self accessed in the method's own body — and in the methods it calls on `self` (a provided trait method
+    that asks a required one, a private helper)"""
     adt = facts.adts.get(NV)
     names = [f['name'] for f in adt['variants'][0]['fields']] if adt else []
     out = set()
+    _seen = _seen if _seen is not None else set()
+    _seen.add(method_body.defp)
+    if _depth < 3:
+        cg = CallGraph(facts) if not hasattr(facts, '_gate_cg') else facts._gate_cg
+        facts._gate_cg = cg
+        fl = Flow(method_body)
+        for _blk, t in method_body.calls():
+            if not t.get('args'):
+                continue
+            l = op_local(t['args'][0])
+            if l is None or 1 not in fl.backward([l]):
+                continue
+            for cb in cg.targets(t):
+                if cb.crate == 'datacake_crdt' and cb.defp not in _seen and cb.argc >= 1 and ('NodeVersions' in cb.local_ty(1) or 'Self' in cb.local_ty(1)):
+                    out |= self_fields_accessed(facts, cb, _depth + 1, _seen)
     for b in facts.group(method_body):
         if b is not method_body:
             continue  # closures reach self only through captures of already-projected places
@@ -83,13 +99,23 @@ def gate_predicates(facts, body):
     out = {}
     for blk, t in body.calls():
         n = cname(t)
-        if not n or not n.startswith(NV + '::'):
+        if not n:
+            continue
+        on_versions = n.startswith(NV + '::')
+        if not on_versions and n.startswith('datacake_crdt::') and t.get('args'):
+            # a method asked of the version vectors through a private trait: the receiver is the NodeVersions component
+            l0 = op_local(t['args'][0])
+            on_versions = l0 is not None and 'NodeVersions' in body.local_ty(l0)
+        if not on_versions:
             continue
         if t['dest']['p'] or not is_verdict_type(facts, body.local_ty(t['dest']['l'])):
             continue
         if not feeds_switch(body, t['dest']['l']):
             continue
         cb = facts.body(n)
+        if cb is None:
+            cands = CallGraph(facts).targets(t) if not hasattr(facts, '_gate_cg') else facts._gate_cg.targets(t)
+            cb = cands[0] if cands else None
         if cb is None:
             continue
         out[n.rsplit('::', 1)[1]] = (self_fields_accessed(facts, cb), t['cs'])
